@@ -283,7 +283,7 @@ def r3_emission_order(ctx):
                       s.where(), s.name)
     ctx.floor('operations on the event buffer', n, 4)
     # the flush: add_event once per element of a forward drain of the buffer (loop or for_each form)
-    adds = per_item_calls(P, f, 'des::runtime::Runtime::add_event')
+    adds = per_item_calls(P, f, forwarders_of(P, 'des::runtime::Runtime::add_event'))
     if not ctx.floor('add_event in the flush loop of buf_process', len(adds), 1):
         return
     for g, s, it, trees in adds:
